@@ -187,16 +187,20 @@ class RuleApply(HarnessBase):
     validate_max = 30
     max_paths = 2000
 
-    def __init__(self, rule, topo='T3', target=-1, units=(), tag='', sym=None):
+    FIRST_STATE = dict(th=0.25, om=-1.5, Tl=0.0078125, t=0.5)
+
+    def __init__(self, rule, topo='T3', target=-1, units=(), tag='', sym=None, twice=False):
+        self.twice = twice
         self.rule = rule
         self.topo = topo
         self.target = target
         self.units = dict(units)
         self.sym = tuple(sym) if sym else None
-        self.name = 'rule:%s:%s:tgt%d:%s%s' % (rule, topo, target, '+'.join(self.sym) if self.sym else 'all', tag)
+        self.name = 'rule:%s:%s:tgt%d:%s%s%s' % (rule, topo, target, '+'.join(self.sym) if self.sym else 'all', tag,
+                                                 ':second_call' if twice else '')
 
     def describe(self):
-        return dict(rule=self.rule, topology=self.topo, sensor_target=self.target, units=self.units,
+        return dict(rule=self.rule, topology=self.topo, sensor_target=self.target, units=self.units, second_call_on_same_rule_object=self.twice,
                     symbolic_groups=list(self.sym) if self.sym else 'all',
                     concrete_defaults={k: v for k, v in DEFAULTS.items() if self.sym and GROUP[k] not in self.sym})
 
@@ -257,6 +261,25 @@ class RuleApply(HarnessBase):
                 r = StartLimitCurrent(encoder=enc, tachometer=tach, motor=M.motor,
                                       target_angular_position=self._q(gu, 'AngularPosition', tg, 'tgt', 'rad'),
                                       limit_electric_current=self._q(gu, 'Current', il, 'ilim', 'A'))
+            if self.twice:
+                # the rule object is first applied in ANOTHER state (as an earlier instant / an earlier simulation would):
+                # a rule must not remember anything from it
+                final = [(o.angular_position, o.angular_speed) for o in M.objs]
+                fl, ft = M.motor.load_torque, pt.time[-1]
+                F = self.FIRST_STATE
+                for o, fct in zip(M.objs, st['f']):
+                    o.angular_position = gu.AngularPosition(F['th'] * fct, 'rad')
+                    o.angular_speed = gu.AngularSpeed(F['om'] * fct, 'rad/s')
+                M.motor.load_torque = gu.Torque(F['Tl'], 'Nm')
+                pt.time[-1] = gu.Time(F['t'], 'sec')
+                try:
+                    r.apply()
+                except (ValueError, ZeroDivisionError):
+                    pass
+                for o, (p_, s_) in zip(M.objs, final):
+                    o.angular_position, o.angular_speed = p_, s_
+                M.motor.load_torque = fl
+                pt.time[-1] = ft
             v = r.apply()
         except (ValueError, ZeroDivisionError, TypeError) as e:
             rec['raised'] = type(e).__name__
